@@ -59,7 +59,9 @@ def main(run):
     run.stubs_used.update(["np.random.choice: SOME element of the (symbolically guarded) candidate array; every candidate explored",
                            "gymnasium.Env / spaces"])
     quick = run.tier == "quick"
-    combos = [(3, "exploitability", None), (4, "l1_norm", None), (4, "exploitability", 3)] + ([] if quick else [(5, "linf_norm", None)])
+    # n = 5 was tried in the thorough tier: the path tree of one size does not finish within 30 minutes on 16 cores
+    # (every tie-break x every fork of the bound computers); n = 5, 6 stay with the bounded layer
+    combos = [(3, "exploitability", None), (4, "l1_norm", None), (4, "exploitability", 3)] + ([] if quick else [(4, "linf_norm", 2), (3, "l2_norm", None)])
     for n, gap, budget in combos:
         for size in range(2, n):
             f = run.prove if n <= 4 else run.prove_parallel
